@@ -519,6 +519,9 @@ func checkDelivery(w *workload, t *fakeTarget) *simh.Violation {
 	v := func(class, format string, args ...interface{}) *simh.Violation {
 		return &simh.Violation{Class: "delivery/" + class, Message: fmt.Sprintf("target %d: ", t.id) + fmt.Sprintf(format, args...)}
 	}
+	if t.calls == 0 && len(exp) == 0 {
+		return nil // a target nothing is addressed to need not be started at all
+	}
 	if t.calls != 1 {
 		return v("writer-calls", "WriteFeatures called %d times", t.calls)
 	}
@@ -658,6 +661,9 @@ func waitForAll(h *harness) *simh.Violation {
 	h.mu.Lock()
 	defer h.mu.Unlock()
 	for _, t := range sortedTargetsLocked(h) {
+		if !t.started && len(model(h.w, t.id)) == 0 {
+			continue // nothing addressed to it: it need not be started at all
+		}
 		if !t.done {
 			state := "still writing"
 			if !t.started {
@@ -876,6 +882,9 @@ func runFree(w *workload) *simh.Violation {
 	// the caller's view right after return, without any synchronisation of its own:
 	// exactly what main.go does when it re-assigns target.Table
 	for _, t := range sortedTargets(h) {
+		if !t.started && len(model(w, t.id)) == 0 {
+			continue
+		}
 		if !t.done { // deliberately unlocked read: an early return is a race the detector reports
 			return &simh.Violation{Class: "lifecycle/early-return", Message: fmt.Sprintf("free-running: target %d not finished at return", t.id)}
 		}
